@@ -38,6 +38,17 @@ pub fn gen_case(rng: &mut Rng, _thorough: bool, case: u64) -> J {
     let threaded = barrier || rng.chance(2, 3);
     if barrier { crits = vec![(json!({"numEval": 2 * nc}), TerminationCriterion::NumObjFuncEval(2 * nc))]; }
     let n1 = if barrier { 2 * nc } else { n1 };
+    // a budget of zero, with a target that the very first result would reach (so that a run which wrongly starts ends)
+    let zero_budget = !barrier && rng.chance(1, 12);
+    if zero_budget { crits = vec![(json!({"numEval": 0}), TerminationCriterion::NumObjFuncEval(0)), (json!({"target": f64_model(1e9)}), TerminationCriterion::TargetObjFuncVal(1e9))]; if rng.chance(1, 2) { crits.swap(0, 1); } }
+    let n1 = if zero_budget { 0 } else { n1 };
+    // objective values of tiny magnitude: improvements far below 1e-16 are improvements all the same
+    let scale: f64 = if rng.chance(1, 5) { 1e-18 } else { 1.0 };
+    // an asynchronous objective function that never suspends, through `launch_with_async_obj_func`, for more
+    // evaluations than the report channel holds: the writer only runs when the controller waits for it
+    let immediate = !barrier && !zero_budget && crits.len() == 1 && rng.chance(1, 4);
+    if immediate { let n = 300 + rng.below(900) as usize; crits = vec![(json!({"numEval": n}), TerminationCriterion::NumObjFuncEval(n))]; }
+    let n1 = if immediate { match crits[0].1 { TerminationCriterion::NumObjFuncEval(n) => n, _ => n1 } } else { n1 };
     let want_live = nc.min(n1);
     let fail_at = if !barrier && rng.chance(1, 4) { Some(rng.below(n1 as u64 + 5) as usize) } else { None };
     let rej_permille = *rng.pick(&[0u64, 0, 200]);
@@ -60,7 +71,7 @@ pub fn gen_case(rng: &mut Rng, _thorough: bool, case: u64) -> J {
         let mut h = Rng::new(script_seed ^ k as u64);
         if fail_at == Some(k) { return Some(f64::NAN); }                     // a non-finite value is a failure
         if h.below(1000) < rej_permille { return None; }
-        Some(x * x + n * n - k as f64 * 0.01)
+        Some((x * x + n * n - k as f64 * 0.01) * scale)
     });
     let dir = crate::proc::build_dir().join("run").join(format!("{}_{}", std::process::id(), case));
     let _ = std::fs::remove_dir_all(&dir);
@@ -68,7 +79,21 @@ pub fn gen_case(rng: &mut Rng, _thorough: bool, case: u64) -> J {
     let info = DetailedReportingFileInfo { detailed_report_file_path: dir.join("report.csv"), best_seen_file_path: dir.join("best.json") };
     let spec = spec_util::from_yaml_str(SPEC).unwrap();
     let cfg = AlgoConfigBuilder::new().num_concurrent(nc).build().unwrap();
-    let res = sync_launch::launch(spec, obj, cfg, crits.iter().map(|c| c.1.clone()).collect::<Vec<_>>(), None, threaded, Some(&info));
+    let res = if immediate {
+        struct Imm { calls: Arc<AtomicUsize>, scale: f64 }
+        #[async_trait::async_trait]
+        impl cambrian::meta::AsyncObjectiveFunction for Imm {
+            async fn evaluate(&self, v: J, _abort: async_broadcast::Receiver<()>, _seed: u64, _id: usize) -> Result<Option<f64>, Error> {
+                let k = self.calls.fetch_add(1, Ordering::SeqCst);
+                let x = v["x"].as_f64().unwrap_or(0.0);
+                Ok(Some((x * x - k as f64 * 0.01) * self.scale))
+            }
+        }
+        drop(obj);
+        sync_launch::launch_with_async_obj_func(spec, Imm { calls: calls.clone(), scale }, cfg, crits.iter().map(|c| c.1.clone()).collect::<Vec<_>>(), None, false, Some(&info))
+    } else {
+        sync_launch::launch(spec, obj, cfg, crits.iter().map(|c| c.1.clone()).collect::<Vec<_>>(), None, threaded, Some(&info))
+    };
     let csv = std::fs::read_to_string(dir.join("report.csv")).unwrap_or_default();
     let rows: Vec<&str> = csv.lines().skip(1).collect();
     let row_objs: Vec<J> = rows.iter().map(|r| { let last = r.rsplit(';').next().unwrap_or(""); if last.is_empty() { J::Null } else { last.parse::<f64>().map(|x| json!(order_code(x))).unwrap_or(json!("unparsable")) } }).collect();
@@ -91,7 +116,7 @@ pub fn gen_case(rng: &mut Rng, _thorough: bool, case: u64) -> J {
         Err(Error::NoIndividuals) => json!("noIndividuals"),
         Err(e) => json!({"other": e.to_string()}),
     };
-    json!({"mode": "run", "criteria": crits.iter().map(|c| c.0.clone()).collect::<Vec<_>>(), "nc": nc, "threaded": threaded, "barrier": barrier, "failAt": fail_at,
+    json!({"mode": "run", "criteria": crits.iter().map(|c| c.0.clone()).collect::<Vec<_>>(), "nc": nc, "threaded": threaded, "barrier": barrier, "immediate": immediate, "tiny": scale != 1.0, "failAt": fail_at,
            "calls": calls.load(Ordering::SeqCst), "maxLive": max_live.load(Ordering::SeqCst), "ret": ret,
            "csvRows": rows.len(), "rowObjs": row_objs, "rowInputs": row_inputs, "bestFile": best_file, "bestLate": best_late})
 }
